@@ -6,16 +6,18 @@ package main
 // the real receiver's decoder against reference-encoded lists with every legal compression.
 
 import (
-	"encoding/binary"
-	"os/exec"
 	"bytes"
+	"encoding/binary"
 	"fmt"
 	"io"
+	"io/fs"
 	"os"
+	"os/exec"
 	"path/filepath"
 	"sort"
 	"strings"
 	"syscall"
+	"testing/fstest"
 	"time"
 	"unicode/utf8"
 
@@ -193,6 +195,9 @@ func sortedLines(es []refEntry, o refOpts) string {
 	sort.Strings(lines)
 	return strings.Join(lines, ";")
 }
+
+// plainFS hides every optional method of a file system (ReadLink in particular)
+type plainFS struct{ fs.FS }
 
 func suiteFlist(h *H) {
 	if h.extra != nil {
@@ -411,6 +416,133 @@ func suiteFlist(h *H) {
 		}
 		h.emit(fmt.Sprintf("flist.enc %s %s", o, showEntries(want, o)), "ok "+hx(entrySection), v, true)
 		h.stat("flist.enc.multi")
+		os.RemoveAll(dir)
+	}
+	// (1c) an entry the sender cannot describe completely (a symlink it cannot read on a source without
+	// ReadLink): whatever the sender does about it — abort, or skip the entry — the list it keeps for itself
+	// and the list on the wire must name the same entries, or every later index means another file
+	for i := 0; i < h.n(6, 60); i++ {
+		mfs := fstest.MapFS{}
+		names := []string{"a.txt", "b/inner.txt", "m.txt", "z.txt", "k.bin"}
+		for _, n := range names[:2+h.rng.Intn(4)] {
+			mfs[n] = &fstest.MapFile{Data: h.bytes(1 + h.rng.Intn(40)), Mode: 0o644, ModTime: time.Unix(1500000000+int64(h.rng.Intn(100)), 0)}
+		}
+		lname := h.pickS("c-link", "b/l", "0first", "zz-last", "m.lnk")
+		mfs[lname] = &fstest.MapFile{Data: []byte("target"), Mode: fs.ModeSymlink | 0o777, ModTime: time.Unix(1500000000, 0)}
+		o := refOpts{links: i%4 != 3, checksum: i%3 == 2}
+		var out bytes.Buffer
+		st := &sender.Transfer{Logger: log.New(io.Discard), Opts: senderOptsFor(o), Env: &rsyncos.Env{Stdout: io.Discard, Stderr: io.Discard},
+			Progress: progress.NewPrinter(io.Discard, time.Now), Conn: &rsyncwire.Conn{Reader: strings.NewReader(""), Writer: &out},
+			Source: sender.NewFSSource(plainFS{mfs})}
+		outcome := "ok"
+		var kept []string
+		func() {
+			defer func() {
+				if r := recover(); r != nil {
+					outcome = fmt.Sprintf("panic:%v", r)
+				}
+			}()
+			fl, err := st.SendFileList("/", []string{"/"}, &sender.VerifFilterRuleList{})
+			if err != nil {
+				outcome = "err"
+			} else {
+				kept = sender.VerifListNames(fl)
+			}
+		}()
+		v := ""
+		if strings.HasPrefix(outcome, "panic") {
+			v = "FAIL[C08] SendFileList panicked on a source whose symlinks cannot be read: " + outcome
+		} else if outcome == "ok" {
+			es, _, _, derr := refDecodeList(out.Bytes(), o)
+			var wire []string
+			for _, e := range es {
+				wire = append(wire, string(e.name))
+			}
+			sort.Strings(wire)
+			k2 := append([]string{}, kept...)
+			sort.Strings(k2)
+			if derr != nil {
+				v = "FAIL the reference decoder cannot read the list: " + derr.Error()
+			} else if strings.Join(wire, "\x00") != strings.Join(k2, "\x00") {
+				v = fmt.Sprintf("FAIL[C15] the sender keeps %d entries %q for itself but wrote %d entries %q to the wire: a request by index means different files on the two sides", len(k2), k2, len(wire), wire)
+			}
+		}
+		h.emit(fmt.Sprintf("!flist-unreadable seed=%d case=%d opts=%s link=%s", h.seed, i, o, lname), outcome, v, true)
+		h.stat("flist.unreadable." + outcome)
+	}
+	// (1d) lists built under exclude rules, with few distinct modification times: what the wire says about
+	// an entry (its mtime in particular — the update rule compares it) must be the entry's own, whatever was
+	// left out in front of it
+	for i := 0; i < h.n(24, 400); i++ {
+		dir := filepath.Join(base, fmt.Sprintf("x%d", i))
+		os.Mkdir(dir, 0o755)
+		o := refOpts{links: true}
+		names := []string{"a", "b.tmp", "c.txt", "d", "e.lock", "f", "g.tmp", "h"}
+		times := []int64{1400000000, 1400000777, 1500000000}
+		var excl []string
+		for _, n := range names {
+			if h.rng.Intn(4) == 0 {
+				continue
+			}
+			p := filepath.Join(dir, n)
+			if n == "d" {
+				os.Mkdir(p, 0o755)
+				os.WriteFile(filepath.Join(p, "in.tmp"), []byte("x"), 0o644)
+				os.WriteFile(filepath.Join(p, "keep"), []byte("y"), 0o644)
+				for _, q := range []string{"in.tmp", "keep"} {
+					t := time.Unix(times[h.rng.Intn(len(times))], 0)
+					os.Chtimes(filepath.Join(p, q), t, t)
+				}
+			} else {
+				os.WriteFile(p, []byte("content of "+n), 0o644)
+			}
+			t := time.Unix(times[h.rng.Intn(len(times))], 0)
+			os.Chtimes(p, t, t)
+		}
+		rootT := time.Unix(times[h.rng.Intn(len(times))], 0)
+		os.Chtimes(dir, rootT, rootT)
+		for _, n := range []string{"b.tmp", "e.lock", "g.tmp", "in.tmp", "c.txt", "d"} {
+			if h.rng.Intn(3) == 0 {
+				excl = append(excl, "- "+n)
+			}
+		}
+		rules, perr := sender.ParseFilterRules(excl)
+		if perr != nil {
+			continue
+		}
+		var want []refEntry
+		for _, e := range refWalk(dir, o) {
+			if string(e.name) == "." || !excludedByKind(excl, string(e.name), e.isDir()) {
+				want = append(want, e)
+			}
+		}
+		var out bytes.Buffer
+		st := &sender.Transfer{Logger: log.New(io.Discard), Opts: senderOptsFor(o), Env: &rsyncos.Env{Stdout: io.Discard, Stderr: io.Discard},
+			Progress: progress.NewPrinter(io.Discard, time.Now), Conn: &rsyncwire.Conn{Reader: strings.NewReader(""), Writer: &out}}
+		outcome := "ok"
+		func() {
+			defer func() {
+				if r := recover(); r != nil {
+					outcome = fmt.Sprintf("panic:%v", r)
+				}
+			}()
+			if _, err := st.SendFileList(dir, []string{"/"}, rules); err != nil {
+				outcome = "err:" + err.Error()
+			}
+		}()
+		es, _, _, derr := refDecodeList(out.Bytes(), o)
+		v := ""
+		switch {
+		case outcome != "ok":
+			v = "FAIL SendFileList failed on a plain tree with exclude rules: " + outcome
+		case derr != nil:
+			v = "FAIL the reference decoder cannot read the list built under exclude rules: " + derr.Error()
+		case sortedLines(es, o) != sortedLines(want, o):
+			v = "FAIL a list built under exclude rules " + fmt.Sprint(excl) + " does not describe the entries that were not excluded: " +
+				firstDiff(strings.ReplaceAll(sortedLines(es, o), ";", "\n"), strings.ReplaceAll(sortedLines(want, o), ";", "\n"))
+		}
+		h.emit(fmt.Sprintf("!flist-filtered seed=%d case=%d rules=%q", h.seed, i, excl), strings.SplitN(outcome, ":", 2)[0], v, len(excl) > 0)
+		h.stat("flist.filtered")
 		os.RemoveAll(dir)
 	}
 	// (2) the real receiver on reference-encoded lists: every legal compression, sorted and shuffled wire order
